@@ -436,6 +436,35 @@ func propC10(c *ctx) error {
 			}
 		}
 	}
+	// ---- unbalanced quotes at the HTML level: a directive attribute whose closing quote is missing, with and without a later
+	// occurrence of that quote character in the file, complete and incomplete values: never loaded and rendered as text
+	{
+		values := []string{"${name}", "Hi, ${name}", "${ok}", "${name", "plain", "${'a'}", "a ${name} b ${name}"}
+		tails := []string{">Hello</p>", ">Hello</p>\n<p>more</p>\n", ">", "", " class=k>x</p>", ">x</p><!-- c --><b>y</b>"}
+		qcnt := 0
+		for _, k := range kinds {
+			for _, v := range values {
+				for _, q := range []string{`"`, `'`} {
+					if strings.Contains(v, q) {
+						continue
+					}
+					for _, tail := range tails {
+						for _, lead := range []string{"", "<div a=" + map[string]string{`"`: `'1'`, `'`: `"1"`}[q] + ">t</div>\n"} {
+							src := lead + `<p :` + k + `=` + q + v + tail
+							rc := &renderCase{Files: [][2]string{{"t", src}}, Tpl: "t"}
+							out := implRender(rc, -1)
+							res.S3Checked++
+							qcnt++
+							if out.Load == "ok" {
+								res.violate(J{"files": rc.Files}, "load error", J{"load": out.Load, "st": out.St, "out": out.text()}, "template with a directive attribute missing its closing quote loads")
+							}
+						}
+					}
+				}
+			}
+		}
+		res.Distribution["html_level_unbalanced_quotes"] = qcnt
+	}
 	return nil
 }
 
